@@ -47,6 +47,31 @@ OP_ENTRY = {
     "file_xml": ("read_neuroml2_file", ""), "file_xml_inc": ("read_neuroml2_file", ""),
     "file_h5": ("read_neuroml2_file", ""), "string_xml": ("read_neuroml2_string", ""),
 }
+# The refusals of the exportHdf5 methods this check exercises (class, guards outermost first), in the order of the
+# translator's table (file, class, line), and for each the minimal documents that trigger it (network spec fragments).
+_CP = "for connection in self.continuous_connections + self.continuous_connection_instances + self.continuous_connection_instance_ws"
+_EP = "for connection in self.electrical_connections + self.electrical_connection_instances + self.electrical_connection_instance_ws"
+EXPECTED_REFUSALS = [
+    ("ContinuousProjection", [_CP, "connection.pre_component != pre_comp or connection.post_component != post_comp"],
+     [{"cprojs": [{"id": "cp", "pre": "p0", "post": "p0", "vary": v}]} for v in ("pre", "post", "both")]),
+    ("ElectricalProjection", [_EP, "connection.synapse != syn"],
+     [{"eprojs": [{"id": "ep", "pre": "p0", "post": "p0", "vary": True}]}]),
+    ("Network", ["len(self.synaptic_connections) > 0"], [{"synaptic_connections": 1}]),
+    ("Network", ["len(self.explicit_inputs) > 0"], [{"explicit_inputs": 1}]),
+    ("Network", ["len(self.spaces) > 0 or len(self.regions) > 0"], [{"spaces": 1}, {"regions": 1}, {"spaces": 1, "regions": 1}]),
+    ("Network", ["len(self.extracellular_properties) > 0"], [{"extracellular": 1}]),
+    ("Network", ["len(self.cell_sets) > 0"], [{"cell_sets": 1}]),
+    ("Population", ["self.layout is not None"], [{"layout": True}]),
+]
+# documents the layout CAN hold although they look similar (must be written without an exception)
+HOLDABLE = [{"cprojs": [{"id": "cp", "pre": "p0", "post": "p0", "vary": ""}]},
+            {"eprojs": [{"id": "ep", "pre": "p0", "post": "p0", "vary": False}]}]
+
+
+def coq_refusals(rows):
+    return coq_list(["(%s, %s)" % (coq_str(c), coq_list([coq_str(g) for g in gs])) for c, gs in rows])
+
+
 KNOWN_IDS_KEY = "C08:ArrayMorphWriter.write:fills-missing-ids"
 
 
@@ -148,6 +173,20 @@ def gen_ops(ck):
     ops.append({"op": "h5_write_embed", "doc": d_syn, "faults": [], "must_raise": True})
     ops.append({"op": "xml_write_path", "doc": d_bad, "faults": [], "must_raise": True})
     ops.append({"op": "xml_write_handle", "doc": d_bad, "faults": [], "must_raise": True})
+    # every refusal the exportHdf5 methods implement, in every minimal variant (cf. the refusals_ok obligation)
+    for cls, guards, variants in EXPECTED_REFUSALS:
+        for v in variants:
+            dv = {"id": "r_" + cls, "iaf": 1, "syn": 1, "pg": 1, "networks": [dict({"id": "n", "pops": [{"id": "p0", "size": 2}]}, **v)]}
+            ops.append({"op": "h5_write_embed", "doc": dv, "faults": [], "must_raise": True})
+            ops.append({"op": "h5_write_noembed", "doc": dv, "faults": [], "must_raise": True})
+    for v in HOLDABLE:
+        dv = {"id": "holdable", "iaf": 1, "networks": [dict({"id": "n", "pops": [{"id": "p0", "size": 2}]}, **v)]}
+        ops.append({"op": "h5_write_embed", "doc": dv, "faults": ck.n(6, "all")})
+    # documents holding array morphologies (list-like views with their own iteration): XML and HDF5 with embedded XML
+    d_am = {"id": "am1", "iaf": 1, "am_cells": [{"id": "c0", "n": 6, "mid": "m0"}, {"id": "c1", "n": 4, "mid": "m1"}],
+            "networks": [{"id": "n", "pops": [{"id": "p0", "comp": "c0", "size": 2}]}]}
+    ops.append({"op": "xml_write_path", "doc": d_am, "faults": ck.n(30, "all")})
+    ops.append({"op": "h5_write_embed", "doc": d_am, "faults": ck.n(30, "all")})
     # two networks: the HDF5 layout (one group "network") cannot hold them
     ops.append({"op": "h5_write_embed", "doc": gen_doc(rng, nets=2), "faults": [], "must_raise": True})
     # the known finding: default ids are written into the caller's document
@@ -300,6 +339,8 @@ def run(ck):
     gen.append("Definition iter_state : list iter_row :=\n  %s." % coq_list(
         ["(%s, %s, %s)" % (coq_str(r["cls"]), coq_list([coq_str(x) for x in r["modified"]]), coq_list([coq_str(x) for x in r["reset"]]))
          for r in d.get("iter_state", [])]))
+    gen.append("Definition refusals : list refusal_row := %s." % coq_refusals([(r["cls"], r["guards"]) for r in d.get("refusals", [])]))
+    gen.append("Definition expected_refusals : list refusal_row := %s." % coq_refusals([(c, g) for c, g, _ in EXPECTED_REFUSALS]))
     gen.append("Definition parsers : list parser_row :=\n  %s." % coq_list(
         ["(%s, %s, %s)" % (coq_str(r["func"]), coq_str(r["ctor"]), coq_list([coq_str(x) for x in r["lax"]]))
          for r in d.get("parsers", [])]))
@@ -328,6 +369,11 @@ def run(ck):
                                            "Lemma parser_strict_ok : parser_strict parsers = true.\nProof. vm_compute. reflexivity. Qed.\n"),
                                   kind="instance")
     inst_ok[("xml parsers", "strict")] = k
+    k, _ = ck.compile_obligations(ck.gen_v("Inst_C08_refusals.v", HEADER + "From Run Require Import Gen_C08.\n"
+                                           "Lemma refusals_ok : refusals_eqb refusals expected_refusals = true.\nProof. vm_compute. reflexivity. Qed.\n"),
+                                  kind="instance")
+    inst_ok[("exportHdf5 refusals", "as exercised")] = k
+    ck.extra["exportHdf5_refusals"] = [{"cls": r["cls"], "guards": r["guards"], "line": r["line"]} for r in d.get("refusals", [])]
     ck.extra["xml_parser_constructions"] = d.get("parsers", [])
     ck.extra["document_iterators"] = d.get("iter_state", [])
     missing = [n for n in d.get("expected", []) if n not in entries]
@@ -337,6 +383,7 @@ def run(ck):
                         "Lemma all_ok : forallb entry_ok entries = true.\nProof. vm_compute. reflexivity. Qed.\n"
                         "Lemma iter_state_ok : iter_ok iter_state = true.\nProof. vm_compute. reflexivity. Qed.\n"
                         "Lemma parser_strict_ok : parser_strict parsers = true.\nProof. vm_compute. reflexivity. Qed.\n"
+                        "Lemma refusals_ok : refusals_eqb refusals expected_refusals = true.\nProof. vm_compute. reflexivity. Qed.\n"
                         "Lemma all_present : map fst (map fst entries) = %s.\nProof. reflexivity. Qed.\n"
                         % coq_list([coq_str(n + ":" + m) for n, m in allmodes]))
         iok, _ = ck.compile_obligations(inst, kind="instance")
@@ -421,7 +468,8 @@ def run(ck):
                            observed={"raised": r["raised"], "exc": r.get("exc"), "left_open": r["leaked_tables"] or r["leaked_fds"],
                                      "doc_changed": r["doc_changed"], "retry_ok": r.get("retry_ok"), "retry_err": r.get("retry_err"),
                                      "statement": hit},
-                           broken="Inst_C08_safe_%s_%s.v" % (ident(ename), ident(mname)))
+                           broken=("Inst_C08_refusals.v:refusals_ok" if cls == "unholdable-construct-not-refused"
+                                   else "Inst_C08_safe_%s_%s.v" % (ident(ename), ident(mname))))
             # ---- correspondence with the skeleton
             if entry is None:
                 continue
